@@ -753,6 +753,47 @@ def ignore_nested_args():
     save("ignore_nested_args", ["C17", "C04", "C13"], steps)
 
 
+def spelled_rm():
+    """rm of a tracked directory written the way shell completion writes it (docs/), behind ./ and of files under other spellings"""
+    steps = head()
+    for p_ in ("readme.txt", "docs/a.txt", "docs/b.txt", "src/x.go", "src/sub/y.go", "lib/z"):
+        steps.append(w(p_, p_ + "\n"))
+    steps.append({"ev": "add", "paths": ["."]})
+    steps.append({"ev": "commit", "msg": "base"})
+    steps.append(w("docs/untracked.txt", "u\n"))
+    steps.append({"ev": "rm", "paths": [esc("docs/")]})
+    steps.append({"ev": "lsfiles"})
+    steps.append({"ev": "status"})
+    steps.append({"ev": "rm", "paths": [esc("./src")]})
+    steps.append({"ev": "lsfiles"})
+    steps.append({"ev": "rm", "paths": [esc("./lib/z"), esc("./readme.txt")]})
+    steps.append({"ev": "lsfiles"})
+    steps.append({"ev": "restores", "paths": ["docs", "src", "lib", "readme.txt"]})
+    steps.append({"ev": "restore", "paths": [esc("./docs"), esc("src/./sub")]})
+    steps.append({"ev": "status"})
+    save("spelled_rm", ["C04", "C06", "C09"], steps)
+
+
+def revparse_orders():
+    """rev-parse with HEAD before, between and after branch names, on a branch that is not the first one"""
+    steps = head()
+    steps.append(w("a", "1"))
+    steps.append({"ev": "add", "paths": ["a"]})
+    steps.append({"ev": "commit", "msg": "one"})
+    steps.append({"ev": "switchc", "name": "topic"})
+    steps.append(w("a", "2"))
+    steps.append({"ev": "add", "paths": ["a"]})
+    steps.append({"ev": "commit", "msg": "two"})
+    steps.append({"ev": "branch", "name": "zeta"})
+    for names in (["HEAD"], ["main"], ["HEAD", "main"], ["main", "HEAD"], ["topic", "main", "HEAD"], ["main", "HEAD", "topic", "HEAD"], ["zeta", "HEAD", "main"]):
+        steps.append({"ev": "revparse", "names": names})
+    steps.append({"ev": "switch", "name": "main"})
+    for names in (["topic", "HEAD"], ["HEAD", "topic", "zeta"]):
+        steps.append({"ev": "revparse", "names": names})
+    steps.append({"ev": "branchlist"})
+    save("revparse_orders", ["C10"], steps)
+
+
 if __name__ == "__main__":
     name_lengths()
     big_index()
@@ -780,3 +821,5 @@ if __name__ == "__main__":
     spelled_args()
     dotgoit_names()
     ignore_nested_args()
+    spelled_rm()
+    revparse_orders()
